@@ -49,6 +49,7 @@ BOUNDS = {
     "rules": "two detections d0, d1 from a pool of 14 shapes x 6 condition forms",
     "transformations": "34 instances (field mapping 1:1 / 1:n / keyword->field / prefix mapping / prefix / suffix / scoped, drop item, add_condition plain / negated / template, replace_string (incl. identity), map_string 1:1 / 1:n, case, set_value, convert_type, regex plain, nest, chains, 'matches nothing' instances)",
     "thorough": "pool of 24 shapes (adds endswith, contains with wildcard, lt, exists, cased, re|i, list of maps with two fields, mixed number/string list, bool, contains|all next to a second field) x 12 condition forms (adds all of, 1 of them, negated quantifier, nested)",
+    "placeholders": "4 placeholder pipelines (value list, include/exclude splits in both orders, wildcard then value list) x two detections from an 11-shape pool with `expand` (plain, contains, startswith, cased, regular expressions with flags, lists, two placeholders in one value) x 6 conditions, compared with the conversion of the hand-expanded document",
     "outside": "external-source and Jinja-template transformations (C16 covers their gating); values with backslashes before wildcards (open known finding of C05); hashes_fields / extract_fields",
 }
 ASSUMPTIONS = ["dropping the ONLY value of an item (the library then renders the item as a null check) is left unspecified: the drop instance only removes one of several values", "reference rewrites are written from the transformation documentation; the C01 reference semantics evaluates the rewritten source"]
@@ -301,10 +302,19 @@ class Skip(Exception):
     pass
 
 
+PRIMER = {"title": "primer", "logsource": {"category": "primercat", "product": "primerprod", "service": "primersvc"}, "fields": ["fB"], "detection": {"d0": {"fA": ["v0", "V9x"], "fB": 5, "win.x": "v5"}, "d1": ["k0"], "condition": "d0 or d1"}}
+
+
 def convert(doc, trans):
     b = make_backend(0)
     if trans is not None:
         b.processing_pipeline = ProcessingPipeline.from_dict({"name": "p", "priority": 10, "transformations": copy.deepcopy(trans)})
+        # the pipeline object has already been applied to another rule (other log source, other values):
+        # a transformation is a function of the rule it is applied to, not of earlier ones
+        try:
+            b.convert_rule(SigmaRule.from_dict(copy.deepcopy(PRIMER)))
+        except SigmaError:
+            pass
     return b.convert_rule(SigmaRule.from_dict(copy.deepcopy(doc)))
 
 
@@ -368,6 +378,100 @@ def c12_concrete(ti: int, k0: int, k1: int, c: int) -> bool:
     return check(ti, k0, k1, c)
 
 
+# ---------------------------------------------------------------- placeholder expansion
+# "converting the rule through the pipeline == converting, without a pipeline, the document rewritten by hand":
+# the hand rewrite removes the `expand` modifier and substitutes the configured values textually.
+PVARS = {"u": ["p1", "p2"], "s": ["solo"]}
+PPOOL = [
+    {"fA|expand": "%u%"},
+    {"fA|expand": "x%s%y"},
+    {"fA|contains|expand": "%u%"},
+    {"fA|re|expand": "a%u%b"},
+    {"fA|re|i|expand": "^q=%s%$"},
+    {"fA|re|i|m|expand": "%u%"},
+    {"fB|cased|expand": "%u%"},
+    {"fA|expand": ["%u%", "lit"]},
+    {"fA": "plain", "fB|startswith|expand": "%s%"},
+    {"fA|expand": "%s%-%u%"},
+    {"fB": "v0"},
+]
+PTRANS = [
+    ("value-placeholders", [{"type": "value_placeholders"}], {}),
+    ("value-placeholders-split", [{"type": "value_placeholders", "include": ["u"]}, {"type": "value_placeholders", "include": ["s"]}], {}),
+    ("value-placeholders-split-reversed", [{"type": "value_placeholders", "include": ["s"]}, {"type": "value_placeholders", "exclude": ["s"]}], {}),
+    ("wildcard-then-values", [{"type": "wildcard_placeholders", "include": ["s"]}, {"type": "value_placeholders"}], {"s": ["*"]}),
+]
+
+
+def hand_expand(det, table):
+    """Rewrite one detection definition by hand: drop `expand`, substitute every placeholder combination."""
+    if isinstance(det, list):
+        return [hand_expand(d, table) for d in det]
+    if not isinstance(det, dict):
+        return det
+    out = {}
+    for key, value in det.items():
+        field, mods = split(key)
+        if "expand" not in mods:
+            out[key] = value
+            continue
+        vals = value if isinstance(value, list) else [value]
+        new = []
+        for v in vals:
+            texts = [v]
+            for name, repl in table.items():
+                texts = [t.replace("%" + name + "%", r, 1) if ("%" + name + "%") in t else t for t in texts for r in (repl if ("%" + name + "%") in t else [None])]
+            new.extend(texts)
+        out[join(field, [m for m in mods if m != "expand"])] = new if len(new) > 1 else new[0]
+    return out
+
+
+def check_placeholders(ti: int, k0: int, k1: int, c: int) -> bool:
+    name, trans, override = PTRANS[ti]
+    table = dict(PVARS, **override)
+    doc = {"title": "t", "logsource": {"category": "cat"}, "detection": {"d0": copy.deepcopy(PPOOL[k0]), "d1": copy.deepcopy(PPOOL[k1]), "condition": CONDS[c]}}
+    if override and is_open("c17-wildcard-placeholder-in-regex"):
+        for d in (PPOOL[k0], PPOOL[k1]):
+            if any("|re" in k and "%s%" in str(v) for k, v in d.items()):
+                return True  # known finding of C17: wildcard placeholder inside a regular expression
+    hand = copy.deepcopy(doc)
+    hand["detection"]["d0"] = hand_expand(hand["detection"]["d0"], table)
+    hand["detection"]["d1"] = hand_expand(hand["detection"]["d1"], table)
+    b = make_backend(0)
+    b.processing_pipeline = ProcessingPipeline.from_dict({"name": "p", "priority": 10, "vars": copy.deepcopy(PVARS), "transformations": copy.deepcopy(trans)})
+    try:
+        out = b.convert_rule(SigmaRule.from_dict(copy.deepcopy(doc)))
+        want = make_backend(0).convert_rule(SigmaRule.from_dict(hand))
+    except SigmaError:
+        return False
+    if len(out) != len(want):
+        return False
+    for q, w in zip(out, want):
+        try:
+            if not equivalent(Q.parse(q), Q.parse(w))[0]:
+                return False
+        except Q.QuerySyntaxError:
+            return False
+    return True
+
+
+def c12_placeholders(ti: int, k0: int, k1: int, c: int) -> bool:
+    """
+    pre: 0 <= ti < len(PTRANS)
+    pre: 0 <= k0 < len(PPOOL) and 0 <= k1 < len(PPOOL)
+    pre: 0 <= c < len(CONDS)
+    post: _
+    """
+    t, a, b, cc = sel(ti, len(PTRANS)), sel(k0, len(PPOOL)), sel(k1, len(PPOOL)), sel(c, len(CONDS))
+    with concrete_section():
+        ok = check_placeholders(t, a, b, cc)
+    return fin(ok)
+
+
+def c12_placeholders_concrete(ti: int, k0: int, k1: int, c: int) -> bool:
+    return check_placeholders(ti, k0, k1, c)
+
+
 def c12_strict_identity_number() -> bool:
     """Witness of known finding c12-replace-string-number-to-string (strict identity oracle)."""
     doc = build_doc(7, 0, 0)
@@ -383,7 +487,7 @@ def c12_strict_applied_with_fields() -> bool:
     return "mA_s" in out[0]
 
 
-OBLIGATIONS = [Ob("c12_transform", {"T": t}, 600, note=TRANS[t][0]) for t in range(len(TRANS))] + [Ob("c12_transform", {"T": t, "X": 1}, 1800, tier="thorough", note=TRANS[t][0] + " (extended pool)") for t in range(len(TRANS))]
+OBLIGATIONS = [Ob("c12_placeholders", {}, 900)] + [Ob("c12_transform", {"T": t}, 600, note=TRANS[t][0]) for t in range(len(TRANS))] + [Ob("c12_transform", {"T": t, "X": 1}, 1800, tier="thorough", note=TRANS[t][0] + " (extended pool)") for t in range(len(TRANS))]
 
 SELFCHECKS = [
     ("c12_concrete", {}, (0, 1, 6, 2), True),
